@@ -88,7 +88,18 @@ type Theory struct {
 	Funs   map[string]*TheoryFun
 	Smt    []string
 	Axioms []string // names of the quantified assertions (reported as trusted)
+	Defs   []string // names of definitional axioms (recursive definitions of the theory's symbols)
+	Proved []string // names of axioms discharged as theory obligations (theoryproof.go)
+	Items  []TheoryItem // every smt line in source order, proof-only ones included
 	File   string
+}
+
+// TheoryItem: Kind is "smt" (declaration / definition text), "trusted", "def", "proved", "proof-def"
+// (definition used only inside the theory proofs, not exported to verification conditions) or
+// "proof-lemma" (proved, proof-only).
+type TheoryItem struct {
+	Kind, Name, Text string
+	Induct           string // "", "induct <bytes var>", "natinduct <int var>"
 }
 
 type TheoryFun struct {
@@ -138,6 +149,7 @@ type TypeInv struct {
 }
 
 type Contracts struct {
+	Atomics   map[string][]string // pkg.T.f -> properties: the field's type is a sync/atomic type
 	Immutable map[string][]string // struct type -> properties: fields are stored to only while the object is unpublished
 	stable   map[string]bool
 	TypeInvs map[string]*TypeInv
@@ -155,7 +167,7 @@ var clauseKeywords = map[string]bool{
 	"props": true, "arith": true, "flags": true, "requires": true, "ensures": true, "modifies": true,
 	"loop": true, "track": true, "panics": true, "statement": true, "refines": true, "ghost-set": true, "params": true, "assert": true, "lemma": true,
 	"guarded": true, "onceinit": true, "nolock": true,
-	"theory": true, "sort": true, "const": true, "fun": true, "smt": true, "macro": true, "ghost-at": true, "ghost-set-post": true, "trusted-axiom": true, "typeinv": true, "immutable": true, "is": true, "assumes": true, "maypanic-call": true, "stepinv": true,
+	"theory": true, "sort": true, "const": true, "fun": true, "smt": true, "macro": true, "ghost-at": true, "ghost-set-post": true, "trusted-axiom": true, "def-axiom": true, "proved-axiom": true, "proof-def": true, "proof-lemma": true, "canary": true, "typeinv": true, "immutable": true, "atomic": true, "is": true, "assumes": true, "maypanic-call": true, "stepinv": true,
 }
 
 func parseContracts(srcs []contractSource) (*Contracts, error) {
@@ -220,6 +232,22 @@ func parseContracts(srcs []contractSource) (*Contracts, error) {
 				}
 				cs.ByID["func "+id] = cur
 				cs.Order = append(cs.Order, "func "+id)
+			case "atomic":
+				// atomic <pkg.T.f> [props P...]: the field is accessed by several goroutines without a lock; its type must be
+				// one of sync/atomic's types (or a pointer to one), so that every access is an atomic operation by construction
+				fs := strings.Fields(rest)
+				if len(fs) == 0 {
+					return nil, errf("atomic <pkg.Type.field> [props ...]")
+				}
+				var props []string
+				if len(fs) > 2 && fs[1] == "props" {
+					props = fs[2:]
+				}
+				if cs.Atomics == nil {
+					cs.Atomics = map[string][]string{}
+				}
+				cs.Atomics[fs[0]] = props
+				cur = nil
 			case "immutable":
 				// immutable <struct type> [props P...]
 				fs := strings.Fields(rest)
@@ -260,7 +288,7 @@ func parseContracts(srcs []contractSource) (*Contracts, error) {
 				curTh = &Theory{Name: rest, Sorts: map[string]bool{}, Consts: map[string]string{}, Funs: map[string]*TheoryFun{}, File: src.File}
 				cs.Theories = append(cs.Theories, curTh)
 				cur = nil
-			case "sort", "const", "fun", "smt", "trusted-axiom":
+			case "sort", "const", "fun", "smt", "trusted-axiom", "def-axiom", "proved-axiom", "proof-def", "proof-lemma", "canary":
 				if curTh == nil {
 					return nil, errf("%s outside a theory block", kw)
 				}
@@ -289,6 +317,35 @@ func parseContracts(srcs []contractSource) (*Contracts, error) {
 					curTh.Funs[tf.Name] = tf
 				case "smt":
 					curTh.Smt = append(curTh.Smt, rest)
+					curTh.Items = append(curTh.Items, TheoryItem{Kind: "smt", Text: rest})
+				case "def-axiom", "proved-axiom", "proof-def", "proof-lemma", "canary":
+					// <kw> name [induct v | natinduct n]: (assert ...)
+					j := strings.Index(rest, ":")
+					if j < 0 {
+						return nil, errf("%s name: (assert ...)", kw)
+					}
+					hd := strings.Fields(rest[:j])
+					if len(hd) == 0 {
+						return nil, errf("%s name: (assert ...)", kw)
+					}
+					it := TheoryItem{Name: hd[0], Text: strings.TrimSpace(rest[j+1:]), Induct: strings.Join(hd[1:], " ")}
+					switch kw {
+					case "def-axiom":
+						it.Kind = "def"
+						curTh.Defs = append(curTh.Defs, it.Name)
+						curTh.Smt = append(curTh.Smt, it.Text)
+					case "proved-axiom":
+						it.Kind = "proved"
+						curTh.Proved = append(curTh.Proved, it.Name)
+						curTh.Smt = append(curTh.Smt, it.Text)
+					case "proof-def":
+						it.Kind = "proof-def"
+					case "proof-lemma":
+						it.Kind = "proof-lemma"
+					case "canary":
+						it.Kind = "canary" // a FALSE statement: it must not be provable from the theory text before it
+					}
+					curTh.Items = append(curTh.Items, it)
 				case "trusted-axiom":
 					// trusted-axiom name: (assert ...)
 					j := strings.Index(rest, ":")
@@ -297,6 +354,7 @@ func parseContracts(srcs []contractSource) (*Contracts, error) {
 					}
 					curTh.Axioms = append(curTh.Axioms, strings.TrimSpace(rest[:j]))
 					curTh.Smt = append(curTh.Smt, strings.TrimSpace(rest[j+1:]))
+					curTh.Items = append(curTh.Items, TheoryItem{Kind: "trusted", Name: strings.TrimSpace(rest[:j]), Text: strings.TrimSpace(rest[j+1:])})
 				}
 			case "spec", "macro":
 				// spec func name(a T, b U) R [= expr]     |    macro name(a T) R = expr
